@@ -90,6 +90,152 @@ class BothComplex(Both):
         self._d = {"k": 1j}
 
 
+class Series(abc.Sequence):
+    """A user Sequence; Table below inherits from it *and* from a user Mapping."""
+
+    def __getitem__(self, i):
+        return ["s0", "s1"][i]
+
+    def __len__(self):
+        return 2
+
+
+class Record(abc.Mapping):
+    def __init__(self, d=None):
+        self._d = dict(d or {"r": 1})
+
+    def __getitem__(self, k):
+        return self._d[k]
+
+    def __iter__(self):
+        return iter(self._d)
+
+    def __len__(self):
+        return len(self._d)
+
+
+class Table(Series, Record):
+    """Sequence first, Mapping second in the MRO; which category applies decides validity."""
+
+    def __init__(self, d):
+        Record.__init__(self, d)
+
+    def __getitem__(self, k):
+        return self._d[k]
+
+    def __iter__(self):
+        return iter(self._d)
+
+    def __len__(self):
+        return len(self._d)
+
+
+class Target:
+    """Referent for weak proxies (kept alive in _KEEP for the live ones)."""
+
+    def __init__(self):
+        self.d = {"p": 1}
+
+    def __getitem__(self, k):
+        return self.d[k]
+
+    def __iter__(self):
+        return iter(self.d)
+
+    def __len__(self):
+        return len(self.d)
+
+    def keys(self):
+        return self.d.keys()
+
+    def items(self):
+        return self.d.items()
+
+    def values(self):
+        return self.d.values()
+
+    def __contains__(self, k):
+        return k in self.d
+
+
+abc.Mapping.register(Target)
+_KEEP = []
+
+
+def _live_proxy():
+    import weakref
+
+    t = Target()
+    _KEEP.append(t)
+    del _KEEP[:-50]
+    return weakref.proxy(t)
+
+
+def _dead_proxy():
+    import gc
+    import weakref
+
+    t = Target()
+    p = weakref.proxy(t)
+    del t
+    gc.collect()
+    return p
+
+
+class _WeakList(list):
+    """A list that can be weakly referenced."""
+
+
+class _WeakPlain:
+    def __repr__(self):
+        return "<WeakPlain>"
+
+
+def _live_proxy_to(factory):
+    import weakref
+
+    t = factory()
+    _KEEP.append(t)
+    del _KEEP[:-50]
+    return weakref.proxy(t)
+
+
+class Lazy:
+    """A lazy proxy in the style of werkzeug's LocalProxy: one type, ``__class__`` (hence every
+    isinstance check) answers for the object it is bound to; unbound, any inspection raises."""
+
+    def __init__(self, factory=None):
+        object.__setattr__(self, "_factory", factory)
+
+    def _target(self):
+        factory = object.__getattribute__(self, "_factory")
+        if factory is None:
+            raise RuntimeError("proxy is not bound")
+        return factory()
+
+    @property
+    def __class__(self):
+        return type(self._target())
+
+    def __getattr__(self, name):
+        return getattr(self._target(), name)
+
+    def __getitem__(self, key):
+        return self._target()[key]
+
+    def __iter__(self):
+        return iter(self._target())
+
+    def __len__(self):
+        return len(self._target())
+
+    def __contains__(self, key):
+        return key in self._target()
+
+    def __repr__(self):
+        return "<Lazy>"
+
+
 class Neither:
     def __repr__(self):
         return "<Neither>"
@@ -225,6 +371,14 @@ def make_pool():
         ("counter", lambda: collections.Counter("aab")), ("chainmap", lambda: collections.ChainMap({"c": 1})),
         ("namedtuple", lambda: collections.namedtuple("NT", "x y")(1, 2)),
         ("both_dot", lambda: BothDot()), ("both_complex", lambda: BothComplex()),
+        ("series", lambda: Series()), ("record", lambda: Record()), ("table_dot", lambda: Table({"a.b": 1})),
+        ("table_intkey", lambda: Table({1: 2})), ("table_complex", lambda: Table({"k": 1j})),
+        ("dead_proxy", _dead_proxy), ("live_proxy", _live_proxy),
+        ("live_proxy_list", lambda: _live_proxy_to(lambda: _WeakList([1, 2]))),
+        ("live_proxy_plain", lambda: _live_proxy_to(_WeakPlain)),
+        ("lazy_dict", lambda: Lazy(lambda: {"z": 1})), ("lazy_list", lambda: Lazy(lambda: [1, 2])),
+        ("lazy_int", lambda: Lazy(lambda: 5)), ("lazy_unbound", lambda: Lazy()),
+        ("lazy_dotdict", lambda: Lazy(lambda: {"a.b": 1})),
         # classes created on the fly that die right after use (their memory - and id() - gets reused)
         ("dyn_dict", lambda: type("DynD", (dict,), {})(a=1)), ("dyn_list", lambda: type("DynL", (list,), {})([1])),
         ("dyn_plain", lambda: type("DynP", (), {})()), ("dyn_map", lambda: type("DynM", (MyMapping,), {})({"m": 1})),
